@@ -1484,18 +1484,3 @@ func contiguousUpTo(r *RepData, n int) bool {
 //@   callsite append:sampleItvls requires nextSegmentFromItsStart: vararg0.endIdx == 0 && vararg0.nrFillSamples == 0 && ((len(sampleItvls) == 0 && vararg0.segIdx == i) || (vararg0.segIdx == i+1 && vararg0.startIdx == 0) || (vararg0.segIdx == 0 && vararg0.startIdx == 0))
 //@   store sampleItvls[len(sampleItvls) - 1].endIdx = requires endIndexWithinItsSegment: sampleItvls[len(sampleItvls)-1].endIdx == uint32((s.EndTime - s.StartTime) / sampleDur) || sampleItvls[len(sampleItvls)-1].endIdx == sampleItvls[len(sampleItvls)-1].startIdx + uint32((rec.audioInEnd - nextAudioStart) / sampleDur) || sampleItvls[len(sampleItvls)-1].endIdx == uint32((rec.audioInEndAfterWrap - s.StartTime) / sampleDur)
 //@   store sampleItvls[len(sampleItvls) - 1].nrFillSamples = requires padOnlyAfterLastSegment: i == lastIdx && nrFills == uint32((rec.audioInEnd - s.EndTime) / sampleDur)
-
-// generateTimelineEntriesFromRef (C03, MPD side): the audio timeline walks the reference (video)
-// timeline boundary by boundary; t is always the audio frame boundary of the current reference
-// boundary (the same calcAudioTimeFromRef the segment recipe uses), every listed duration is the
-// distance to the audio boundary of the next reference boundary, the first entry carries the
-// explicit start, a run is extended only by an equal duration, and numbering starts where the
-// reference timeline starts.
-//@ func (*asset).generateTimelineEntriesFromRef
-//@   wiring
-//@   callsite append:se.entries requires entryIsBoundaryDistance: vararg0 != nil && vararg0.D == d && vararg0.R == 0 && (len(se.entries) == 0 ==> vararg0.T != nil && *vararg0.T == t)
-//@   store s.R++ requires runOfEqualDurations: s.D == d
-//@   store d := requires distanceToNextBoundary: d == calcAudioTimeFromRef(nextRefT, refTimescale, sampleDur, timeScale) - t
-//@   ensures  sameNumbering: result.startNr == refSE.startNr && result.mediaTimescale == uint32(a.Reps[repID].MediaTimescale)
-//@   loop 2 invariant audioBoundaryOfRefBoundary: t == calcAudioTimeFromRef(nextRefT, refTimescale, sampleDur, timeScale)
-//@   loop 3 invariant audioBoundaryOfRefBoundary: t == calcAudioTimeFromRef(nextRefT, refTimescale, sampleDur, timeScale) && refD == rs.D
